@@ -1,9 +1,9 @@
 #!/bin/bash
-# usage: tools/seed_eval.sh <ID> <go test package path of the demo> <check> [<check>...]
+# usage: [WT=<worktree>] tools/seed_eval.sh <ID> <go test package path(s) of the demo, quoted> <check> [<check>...]
 # Verifies a seeded change delivered in /tmp/wt-<ID> (demo fails with it, passes without it),
 # stores it under /verif/seeded/<ID>/ and runs the named checks against the changed tree.
 ID=$1; PKG=$2; shift 2
-WT=/tmp/wt-$ID
+WT=${WT:-/tmp/wt-$ID}
 export GOFLAGS=-mod=mod GOPROXY=off GOSUMDB=off
 cd $WT || exit 2
 mkdir -p /verif/seeded/$ID
